@@ -251,6 +251,50 @@ def wide_document_pattern(gen, pool):
     return out
 
 
+def configure_after_use_pattern(gen, pool):
+    """the process has ALREADY diffed notebooks (code cells aligned, outputs compared: the per-path tables hold
+    looked-up defaults) when the ignore options are set; the next diff compares outputs that differ inside values of
+    several kinds - text, a multi-line string under a +json mime type, JSON containers, output metadata - and must
+    answer like a fresh process given the same options"""
+    import copy
+    from ..gen_nb import validate_nb
+    r = gen.rng
+    ec = r.randrange(1, 9)
+    script = "".join("(function(root) { load(%d); })(window);\n" % i for i in range(r.choice([3, 6])))
+    out = {"output_type": r.choice(["display_data", "execute_result"]), "metadata": {"isolated": True},
+           "data": {"text/plain": "<Loader>", "application/vnd.holoviews_load.v0+json": script,
+                    "application/vnd.custom+json": r.choice([script, {"k": [1, 2]}, [script]]), "text/html": "<div>\n<p>x</p>\n</div>"}}
+    if out["output_type"] == "execute_result":
+        out["execution_count"] = ec
+    cell = {"cell_type": "code", "metadata": {}, "source": "hv.extension('bokeh')\n", "execution_count": ec, "outputs": [out, {"output_type": "stream", "name": "stdout", "text": "ready\n"}]}
+    a = copy.deepcopy(r.choice(pool))
+    m = a["nbformat_minor"]
+    if m >= 5:
+        cell["id"] = gen.new_id()
+    a["cells"].insert(0, cell)
+    b = copy.deepcopy(a)
+    bo = b["cells"][0]["outputs"][0]
+    for key in r.sample(sorted(bo["data"]), r.choice([1, 2])):
+        v = bo["data"][key]
+        if isinstance(v, str):
+            bo["data"][key] = v.replace("load(1)", "load(1, true)").replace("<p>x</p>", "<p>y</p>").replace("<Loader>", "<Loader 2>")
+        elif isinstance(v, list):
+            bo["data"][key] = v + ["more"]
+        else:
+            bo["data"][key] = dict(v, extra=1)
+    if r.random() < 0.5:
+        b["cells"][0]["execution_count"] = ec + 1
+        if "execution_count" in bo:
+            bo["execution_count"] = ec + 1
+    if validate_nb(a) or validate_nb(b):
+        return []
+    warm = {"op": "diff_notebooks", "A": a, "B": copy.deepcopy(a) if r.random() < 0.5 else b}
+    cfg = r.choice([{"op": "flags", "flags": ["-D"]}, {"op": "targets", "kw": {"sources": True, "outputs": True, "attachments": True, "metadata": True, "identifier": True, "details": False}},
+                    {"op": "ignores", "mapping": {"/cells/*/outputs/*": ["execution_count"]}}, {"op": "ignores", "mapping": {"/cells/*/outputs/*": ["metadata"], "/cells/*": ["execution_count"]}},
+                    {"op": "flags", "flags": ["-M"]}])
+    return [warm, cfg, {"op": "diff_notebooks", "A": a, "B": b}]
+
+
 def make_history(gen, maxlen):
     from ..gen_edit import mutate
     from ..gen_nb import validate_nb
@@ -263,6 +307,8 @@ def make_history(gen, maxlen):
     ops = []
     if r.random() < 0.25:
         ops.extend(wide_document_pattern(gen, pool))
+    if r.random() < 0.3:
+        ops.extend(configure_after_use_pattern(gen, pool))
     chain = revision_chain(gen) if r.random() < 0.6 else []
     for _ in range(n):
         if chain and r.random() < 0.3:
